@@ -2,6 +2,8 @@
 from lib import recdsl as rd
 from lib import pyvals as pv
 from props.rec_common import *  # noqa: F401,F403
+from props import rec_common as _rc
+from props import rec2_cases as r2
 
 ID = "C18"
 LOG_LEVEL_INVARIANT = True      # (harness/vp.py: a sample of the cases again with logging at DEBUG; same observables)
@@ -145,6 +147,8 @@ def switched_off_grid():
 
 def generate(rng, tier):
     cases = list(hierarchy_grid()) + list(extractor_shape_grid()) + list(switched_off_grid())
+    # a recorded operation inside which other scopes of the recorder open and close (nested replay / nested operation call)
+    cases += r2.nested_scope_cases()
     shape_rng = __import__("random").Random()
     shape_rng.setstate(rng.getstate())     # (a copy of the stream: the histories below stay what they were)
     n = 220 if tier == "quick" else 3000
@@ -180,6 +184,8 @@ def generate(rng, tier):
 def direct(case, obs):
     if "driver_exception" in obs:
         return [("driver", obs["driver_exception"] + obs.get("trace", "")[-400:])]
+    if r2.is_rec2(case):
+        return r2.direct_metadata(case, obs)
     if f07c_affected(obs):
         return []          # region of known finding F07c (reported by C01): nothing is concluded from such a case
     fails = []
@@ -283,6 +289,8 @@ _hist_features = features     # (from rec_common)
 
 
 def features(case):      # noqa: F811
+    if r2.is_rec2(case):
+        return r2.features(case)
     fs = _hist_features(case)
     if case.get("lookup_variants"):
         fs.add("lookup:properties-adjusted-after-construction")
@@ -292,6 +300,23 @@ def features(case):      # noqa: F811
         if r["kind"] == "record" and r["op"]["extractor"].get("shape"):
             fs.add("extractor-returns:" + r["op"]["extractor"]["shape"])
     return fs
+
+
+# ---- round-7 case kinds are implementation only: the hooks of rec_common apply to history cases --------------------------------
+def to_gallina(case, obs):      # noqa: F811
+    return None if r2.is_rec2(case) else _rc.to_gallina(case, obs)
+
+
+def explain(case, obs):      # noqa: F811
+    return "0%nat" if r2.is_rec2(case) else _rc.explain(case, obs)
+
+
+def nontrivial(case):      # noqa: F811
+    return True if r2.is_rec2(case) else _rc.nontrivial(case)
+
+
+def shrink_candidates(case):      # noqa: F811
+    return [] if r2.is_rec2(case) else _rc.shrink_candidates(case)
 
 
 MANIFEST = dict(
